@@ -464,6 +464,20 @@ func Odd(t *sym.Term) *sym.Term {
 
 // ofLimbs reads a *[4]uint64 of saturated limbs as a ring element.
 func ofLimbs(ex *absint.Exec, c *absint.CallCtx, i int, srt sym.Sort) *sym.Term {
+	if len(c.Args) == i+4 {
+		// the four limbs handed over as separate words
+		ws := make([]absint.Val, 4)
+		all := true
+		for k := range ws {
+			ws[k] = c.St.Resolve(c.Args[i+k])
+			if _, isT := ws[k].(*sym.Term); !isT {
+				all = false
+			}
+		}
+		if all {
+			return loadRingVal(ex, c, &absint.Agg{Elems: ws}, i, srt)
+		}
+	}
 	return loadRing(ex, c, i, srt)
 }
 
